@@ -190,7 +190,7 @@ def run(rep: Report, prog: Program, tier: str) -> None:
         rep.samples.append(s)
 
     # ---- C10-FEED
-    rep.rule("C10-FEED", "receiver uses add()'s results faithfully", min_instances=2)
+    rep.rule("C10-FEED", "receiver uses add()'s results faithfully and feeds it depayloaded packets only (original codec for retransmissions)", min_instances=7)
     h = prog.func("rtcrtpreceiver.RTCRtpReceiver._handle_rtp_packet")
     assign = None
     for n in walk_no_nested(h.node):
@@ -213,6 +213,68 @@ def run(rep: Report, prog: Program, tier: str) -> None:
             rep.ok("C10-FEED", f"_handle_rtp_packet: {what}", sample=unparse(assign)[:80])
         else:
             rep.fail(mk_finding(prog, PROP, "C10-FEED", h, assign, msg, construct="feed: " + what))
+
+    # what reaches add(): evaluated on the real _handle_rtp_packet with the jitter buffer, the codec depayloader and the RTCP senders stubbed
+    from types import SimpleNamespace as _NSf
+
+    from engine.index import Unknown as _Uf
+    from engine.peval import Evaluator as _Evf, Raised as _Rf
+    from .objhook import make_hook as _mkf
+    fed: list = []
+
+    def _fx(call, evl):
+        nm = unparse(call.func)
+        if nm.endswith("__jitter_buffer.add"):
+            fed.append(evl.ev(call.args[0]))
+            return (False, None)
+        if nm.endswith("__log_debug") or nm.endswith("_send_rtcp_pli") or nm.endswith("_send_rtcp_nack"):
+            return None
+        if nm == "depayload":
+            codec_, payload_ = evl.ev(call.args[0]), evl.ev(call.args[1])
+            if payload_.startswith(b"BAD"):
+                raise _Rf("ValueError", call)
+            return codec_.name.encode() + b":" + payload_
+        if nm in ("clock.current_datetime", "current_datetime"):
+            return 0
+        if nm == "time.time":
+            return 50.0
+        if nm == "isinstance" and len(call.args) == 2 and unparse(call.args[1]) in ("int", "str", "bytes"):
+            return isinstance(evl.ev(call.args[0]), {"int": int, "str": str, "bytes": bytes}[unparse(call.args[1])])
+        return NotImplemented
+    fh = _mkf(prog, _fx)
+    fev = _Evf(prog, h.module, None, {}, fh)
+    me_f = _NSf(__cls__=h.cls, _enabled=True)
+    for k_, v_ in {"__remote_bitrate_estimator": None, "__rtcp_ssrc": 7, "__active_ssrc": {}, "__remote_streams": {}, "__rtx_ssrc": {2000: 1000}, "__decoder_thread": None,
+                   "__jitter_buffer": _NSf(), "__kind": "video", "__nack_generator": None,
+                   "__codecs": {96: _NSf(name="VP8", mimeType="video/VP8", clockRate=90000, parameters={}), 97: _NSf(name="rtx", mimeType="video/rtx", clockRate=90000, parameters={"apt": 96})}}.items():
+        setattr(me_f, k_, v_)
+
+    def _fp(pt, ssrc, seq, payload):
+        return fh.instantiate(prog.cls("rtp.RtpPacket"), [], dict(payload_type=pt, sequence_number=seq, timestamp=9000, ssrc=ssrc, payload=payload), fev)
+    feed_cases = [("a media packet", _fp(96, 1000, 500, b"a"), [(500, b"VP8:a")]),
+                  ("a packet whose codec payload does not parse", _fp(96, 1000, 501, b"BAD"), []),
+                  ("a retransmission on the RTX stream (original sequence number 502)", _fp(97, 2000, 7001, b"\x01\xf6c"), [(502, b"VP8:c")]),
+                  ("a retransmission whose inner payload does not parse", _fp(97, 2000, 7002, b"\x01\xf7BAD"), []),
+                  ("an empty media packet (padding probe)", _fp(96, 1000, 504, b""), None)]
+    for what, pkt_, want_ in feed_cases:
+        del fed[:]
+        try:
+            fh.run_method(h, me_f, [pkt_, 1], {})
+            got_ = [(getattr(x, "sequence_number", None), getattr(x, "_data", "no _data")) for x in fed]
+        except _Rf as ex_:
+            rep.fail(mk_finding(prog, PROP, "C10-FEED", h, getattr(ex_, "node", None), f"_handle_rtp_packet raises {ex_.name} on {what}", construct=f"feed raises {ex_.name}"))
+            continue
+        except _Uf as ex_:
+            raise AnalysisError(f"C10-FEED cannot evaluate _handle_rtp_packet on {what}: {ex_}")
+        if want_ is None:       # empty payload: either skipped or fed with empty data, never without _data
+            good = all(d == b"" or isinstance(d, bytes) for _s, d in got_)
+        else:
+            good = got_ == want_
+        if good:
+            rep.ok("C10-FEED", f"_handle_rtp_packet on {what}", sample=f"add() receives {got_}")
+        else:
+            rep.fail(mk_finding(prog, PROP, "C10-FEED", h, assign, f"on {what} the jitter buffer is fed {got_}; expected {want_}: the buffer concatenates `_data` of the packets of a frame, so a packet "
+                                "that was not depayloaded (or was depayloaded with the wrong codec) corrupts the frame or makes add() raise", construct="feed: " + what[:50]))
 
     accept_rule(rep, prog, PROP, "C10-ACCEPT")
 
@@ -289,6 +351,8 @@ def run(rep: Report, prog: Program, tier: str) -> None:
     combos = [c + (None,) for c in itertools.product((0, 65520), (1, 3), (14, 17, 22), (0, 1, 4, 7), (0, 2))]
     # one packet arrives far too early (2 x capacity or more ahead) while the packets before it keep arriving in order
     combos += [(st_, 1, 30, 0, pf_, (12, ahead)) for st_ in (0, 65520) for pf_ in (0, 2) for ahead in (33, 37, 45)]
+    # a stalled head-of-line frame followed by a forward jump whose mandatory eviction ends inside a later frame
+    combos += [(st_, 1, g_at, g_, 0, None) for st_ in (0, 65520) for g_at, g_ in ((14, 3), (15, 4), (16, 5), (13, 6))]
     for start, lost_at, gap_at, gap, prefetch, early in combos:
         pkts = []
         seq = start
@@ -313,9 +377,26 @@ def run(rep: Report, prog: Program, tier: str) -> None:
             out = []
             pli = False
             since = True  # the first released frame may be a tail (stream start)
+            index_of = {id(p_): k_ for k_, p_ in enumerate(pkts)}
+            split = None
+
+            def held_() -> set:
+                store = next((v for v in vars(jb).values() if isinstance(v, list) and len(v) == 16), None)
+                if store is None:
+                    raise AnalysisError("C10-OVERFLOW: the packet store of the jitter buffer (a list of `capacity` slots) was not found")
+                return {index_of[id(x)] for x in store if x is not None and id(x) in index_of}
             for i in order_:
                 p = pkts[i]
+                h0 = held_()
                 r = oh.run_method(add, jb, [p], {})
+                h1 = held_()
+                # a discard never separates two held packets of one frame: the head would be thrown away and the tail handed to the decoder
+                chunks_ = {r[1].data[x_:x_ + 2] for x_ in range(0, len(r[1].data), 2)} if r[1] is not None else set()
+                released_ = {k_ for k_ in h0 | {i} if pkts[k_]._data in chunks_}
+                for j in sorted(h0 - h1 - released_):
+                    if j + 1 in h0 and (j + 1 in h1 or j + 1 in released_) and pkts[j + 1].frame == pkts[j].frame and split is None:
+                        split = (f"when packet #{i} arrived, packet #{j} of frame #{pkts[j].frame} was thrown away while packet #{j + 1} of the same frame "
+                                 f"{'was handed to the decoder' if j + 1 in released_ else 'stayed in the buffer'}")
                 pli = pli or bool(r[0])
                 since = since or bool(r[0])
                 if r[1] is not None:
@@ -355,6 +436,8 @@ def run(rep: Report, prog: Program, tier: str) -> None:
                 break
             used |= set(idxs)
             last_end = idxs[-1]
+        if split:
+            problems.append(split + ": eviction did not stop at a frame boundary")
         if not pli:
             problems.append("packets were discarded but no key-frame request was raised")
         if len(out) < 3 and not early:
